@@ -194,3 +194,42 @@ Example C08_visibility_examples :
   (let deps := fun v => match v with 0 => [1; 2] | 1 => [3] | 2 => [3] | _ => [] end%nat in
    check_cycle deps 11 0 3 = Some true /\ check_cycle deps 11 3 0 = Some false).
 Proof. vm_compute. repeat split. Qed.
+
+(* ---- round 3: the bounding-box fast path of MeshVolumeRegion._bufferOverapproximate (pitch >= 1), used by
+   pruneVisibility when the observer's view region is random.  [buffer_box bounds b] is the (position, dimension)
+   pair per axis of the returned BoxRegion: midpoint of the bounds, extent + 2 b.  Any point whose sup-norm
+   distance to a point of the bounding box is <= b (in particular any point within Euclidean distance b) lies
+   in the returned box; any dimension. *)
+Theorem C08_buffer_box_sufficient : forall bounds b p q,
+  in_bounds bounds p -> sup_within b p q -> in_box (buffer_box bounds b) q.
+Proof. exact buffer_box_sufficient. Qed.
+Print Assumptions C08_buffer_box_sufficient.
+
+Theorem C08_buffer_box_sufficient_euclid : forall l1 h1 l2 h2 l3 h3 b x1 x2 x3 y1 y2 y3,
+  0 <= b ->
+  in_bounds [(l1, h1); (l2, h2); (l3, h3)] [x1; x2; x3] ->
+  sqdist3 (x1, x2, x3) (y1, y2, y3) <= b * b ->
+  in_box (buffer_box [(l1, h1); (l2, h2); (l3, h3)] b) [y1; y2; y3].
+Proof. exact buffer_box_sufficient_euclid. Qed.
+Print Assumptions C08_buffer_box_sufficient_euclid.
+
+(* each face of the returned box is exactly b outside the bounds *)
+Theorem C08_buffer_box_faces : forall lo hi b,
+  box_mid lo hi - box_ext lo hi b / 2 == lo - b /\ box_mid lo hi + box_ext lo hi b / 2 == hi + b.
+Proof. exact buffer_box_faces. Qed.
+Print Assumptions C08_buffer_box_faces.
+
+(* 2 b is needed: a box grown by k b in total with k < 2 (k = 1: `extents + minBuffer`) misses, for every
+   non-empty bounding interval and every positive buffer, a point within b of the bounds *)
+Theorem C08_buffer_box_k_insufficient : forall k lo hi b,
+  k < 2 -> 0 < b -> lo <= hi ->
+  in_bounds [(lo, hi)] [hi] /\ sup_within b [hi] [hi + b] /\ ~ in_box (buffer_box_k k [(lo, hi)] b) [hi + b].
+Proof. exact buffer_box_k_insufficient. Qed.
+Print Assumptions C08_buffer_box_k_insufficient.
+
+(* non-vacuity: hypotheses of C08_buffer_box_sufficient are satisfiable (corner (3,-2,1) of the box moved by 1/2 on two axes) *)
+Example C08_buffer_box_example :
+  in_bounds [(1, 3); (-2, 2); (0, 1)] [3; -2; 1] /\ sup_within (1 # 2) [3; -2; 1] [7 # 2; -5 # 2; 1]
+  /\ in_box (buffer_box [(1, 3); (-2, 2); (0, 1)] (1 # 2)) [7 # 2; -5 # 2; 1]
+  /\ box_mid 1 3 == 2 /\ box_ext 1 3 (1 # 2) == 3.
+Proof. exact buffer_box_example. Qed.
